@@ -23,7 +23,8 @@ def make_lattice():
     def mk(name, bases):
         cls = type(name, bases, {})
         cls.__module__ = mod
-        cls.__qualname__ = name
+        # B and M are nested classes (their qualified name has two parts, `Outer.B`): by-name registrations use the qualified name
+        cls.__qualname__ = ('Outer.' + name) if name in ('B', 'M') else name
         return cls
     A = mk('A', (object,))
     B = mk('B', (A,))
